@@ -45,6 +45,7 @@ From Coq Require Import PrimFloat.
 From Coq Require Import ZArith List Bool Reals Lra Permutation Sorted.
 From BZ Require Import Base.Ops Proofs.Tactics Gen.Point Gen.Line Gen.Quad Gen.Cubic Hand.Shoelace Hand.Clip Proofs.C12.
 Import ListNotations.
+From BZ Require Proofs.Transfer6clip.
 From BZ Require Gen.Sample Gen.Clip Proofs.Bridge6.
 Open Scope R_scope.
 
@@ -99,6 +100,42 @@ Proof. exact @Bridge6.ClipBridge.clip_gen. Qed.
 Theorem C12_clip_gen_R :
   forall (K : Type) (fmt_2f : R -> K) (keq : K -> K -> bool) (toZ : R -> option Z) (gclipper : Clip.clip_type -> list (list (Z * Z)) -> list (list (Z * Z)) -> option (list (list (Z * Z)))) (hclipper : cliptype -> list (list (Z * Z)) -> list (list (Z * Z)) -> option (list (list (Z * Z)))) (flatten2 : segment R -> option (list (seg2 R))), (forall (ct : Clip.clip_type) (s c : list (list (Z * Z))), hclipper (Bridge6.ClipBridge.ct_of ct) s c = gclipper ct s c) -> forall (fuel : nat) (self other : list (segment R)) (ct : Clip.clip_type) (flat : bool) (ints : list (pt R * (segment R * segment R * (R * pt R * R)))) (sl1 sl2 : list (segment R * R)) (pieces1 pieces2 : list (segment R)), Bridge6.ClipBridge.g_isect ROps fmt_2f keq fuel self other = Some (Sample.Returns (ints, sl1, sl2)) -> Split.Path_splitAtPoints ROps fuel self sl1 = Some pieces1 -> Split.Path_splitAtPoints ROps fuel other sl2 = Some pieces2 -> splitAtPoints ROps self sl1 = Ok pieces1 -> splitAtPoints ROps other sl2 = Ok pieces2 -> Forall (Bridge6.ClipBridge.flat_ok ROps flatten2 fuel) pieces1 -> Forall (Bridge6.ClipBridge.flat_ok ROps flatten2 fuel) pieces2 -> Clip.Path_clip ROps fmt_2f keq toZ gclipper fuel self other ct flat = Bridge6.ClipBridge.embed (clip ROps toZ hclipper flatten2 self other sl1 sl2 (Bridge6.ClipBridge.ct_of ct) flat).
 Proof. exact @Bridge6.ClipBridge.clip_gen_R. Qed.
+Theorem C12_gen_selectors_ops :
+  forall (T : Type) (O : Ops T) (K : Type) (fmt_2f : T -> K) (keq : K -> K -> bool) (toZ : T -> option Z) (gclipper : Clip.clip_type -> list (list (Z * Z)) -> list (list (Z * Z)) -> option (list (list (Z * Z)))) (fuel : nat) (self other : list (segment T)) (flat : bool), Clip.Path_union O fmt_2f keq toZ gclipper fuel self other flat = Clip.Path_clip O fmt_2f keq toZ gclipper fuel self other Clip.Ct_union flat /\ Clip.Path_intersection O fmt_2f keq toZ gclipper fuel self other flat = Clip.Path_clip O fmt_2f keq toZ gclipper fuel self other Clip.Ct_intersection flat /\ Clip.Path_difference O fmt_2f keq toZ gclipper fuel self other flat = Clip.Path_clip O fmt_2f keq toZ gclipper fuel self other Clip.Ct_difference flat.
+Proof. exact @Transfer6clip.gen_selectors_ops. Qed.
+Theorem C12_ct_of_selectors :
+  Bridge6.ClipBridge.ct_of Clip.Ct_union = CT_UNION /\ Bridge6.ClipBridge.ct_of Clip.Ct_intersection = CT_INTERSECTION /\ Bridge6.ClipBridge.ct_of Clip.Ct_difference = CT_DIFFERENCE.
+Proof. exact @Transfer6clip.ct_of_selectors. Qed.
+Theorem C12_gen_clip_returns_iff :
+  forall (K : Type) (fmt_2f : R -> K) (keq : K -> K -> bool) (gclipper : Clip.clip_type -> list (list (Z * Z)) -> list (list (Z * Z)) -> option (list (list (Z * Z)))) (hclipper : clipper_t) (flatten2 : flatten_t), (forall (ct : Clip.clip_type) (s c : list zpoly), hclipper (Bridge6.ClipBridge.ct_of ct) s c = gclipper ct s c) -> forall (fuel : nat) (self other : list (segment R)) (ints : list (pt R * (segment R * segment R * (R * pt R * R)))) (sl1 sl2 : list (segment R * R)) (pieces1 pieces2 : list (segment R)), Bridge6.ClipBridge.g_isect ROps fmt_2f keq fuel self other = Some (Sample.Returns (ints, sl1, sl2)) -> Split.Path_splitAtPoints ROps fuel self sl1 = Some pieces1 -> Split.Path_splitAtPoints ROps fuel other sl2 = Some pieces2 -> splitAtPoints ROps self sl1 = Ok pieces1 -> splitAtPoints ROps other sl2 = Ok pieces2 -> Forall (Bridge6.ClipBridge.flat_ok ROps flatten2 fuel) pieces1 -> Forall (Bridge6.ClipBridge.flat_ok ROps flatten2 fuel) pieces2 -> forall (ct : Clip.clip_type) (flat : bool) (paths : list (list (segment R) * bool)), Clip.Path_clip ROps fmt_2f keq R_toZ gclipper fuel self other ct flat = Some (Sample.Returns paths) <-> clip ROps R_toZ hclipper flatten2 self other sl1 sl2 (Bridge6.ClipBridge.ct_of ct) flat = Ok paths.
+Proof. exact @Transfer6clip.gen_clip_returns_iff. Qed.
+Theorem C12_gen_clip_not_none :
+  forall (K : Type) (fmt_2f : R -> K) (keq : K -> K -> bool) (gclipper : Clip.clip_type -> list (list (Z * Z)) -> list (list (Z * Z)) -> option (list (list (Z * Z)))) (hclipper : clipper_t) (flatten2 : flatten_t), (forall (ct : Clip.clip_type) (s c : list zpoly), hclipper (Bridge6.ClipBridge.ct_of ct) s c = gclipper ct s c) -> forall (fuel : nat) (self other : list (segment R)) (ints : list (pt R * (segment R * segment R * (R * pt R * R)))) (sl1 sl2 : list (segment R * R)) (pieces1 pieces2 : list (segment R)), Bridge6.ClipBridge.g_isect ROps fmt_2f keq fuel self other = Some (Sample.Returns (ints, sl1, sl2)) -> Split.Path_splitAtPoints ROps fuel self sl1 = Some pieces1 -> Split.Path_splitAtPoints ROps fuel other sl2 = Some pieces2 -> splitAtPoints ROps self sl1 = Ok pieces1 -> splitAtPoints ROps other sl2 = Ok pieces2 -> Forall (Bridge6.ClipBridge.flat_ok ROps flatten2 fuel) pieces1 -> Forall (Bridge6.ClipBridge.flat_ok ROps flatten2 fuel) pieces2 -> forall (ct : Clip.clip_type) (flat : bool), Clip.Path_clip ROps fmt_2f keq R_toZ gclipper fuel self other ct flat <> None.
+Proof. exact @Transfer6clip.gen_clip_not_none. Qed.
+Theorem C12_gen_selectors_roles :
+  forall (K : Type) (fmt_2f : R -> K) (keq : K -> K -> bool) (gclipper : Clip.clip_type -> list (list (Z * Z)) -> list (list (Z * Z)) -> option (list (list (Z * Z)))) (hclipper : clipper_t) (flatten2 : flatten_t), (forall (ct : Clip.clip_type) (s c : list zpoly), hclipper (Bridge6.ClipBridge.ct_of ct) s c = gclipper ct s c) -> forall (fuel : nat) (self other : list (segment R)) (ints : list (pt R * (segment R * segment R * (R * pt R * R)))) (sl1 sl2 : list (segment R * R)) (pieces1 pieces2 : list (segment R)), Bridge6.ClipBridge.g_isect ROps fmt_2f keq fuel self other = Some (Sample.Returns (ints, sl1, sl2)) -> Split.Path_splitAtPoints ROps fuel self sl1 = Some pieces1 -> Split.Path_splitAtPoints ROps fuel other sl2 = Some pieces2 -> splitAtPoints ROps self sl1 = Ok pieces1 -> splitAtPoints ROps other sl2 = Ok pieces2 -> Forall (Bridge6.ClipBridge.flat_ok ROps flatten2 fuel) pieces1 -> Forall (Bridge6.ClipBridge.flat_ok ROps flatten2 fuel) pieces2 -> forall (st : store R) (subj clp : zpoly) (l : lut), prepare ROps R_toZ flatten2 self other sl1 sl2 = (st, Ok (subj, clp, l)) -> forall (ct : Clip.clip_type) (flat : bool), Clip.Path_clip ROps fmt_2f keq R_toZ gclipper fuel self other ct flat = match gclipper ct [subj] [clp] with | Some polys => Bridge6.ClipBridge.embed (rebuild ROps flat l polys) | None => Some (Sample.Raises Sample.PyClipperError) end.
+Proof. exact @Transfer6clip.gen_selectors_roles. Qed.
+Theorem C12_gen_clip_calls_clipper :
+  forall (K : Type) (fmt_2f : R -> K) (keq : K -> K -> bool) (gclipper : Clip.clip_type -> list (list (Z * Z)) -> list (list (Z * Z)) -> option (list (list (Z * Z)))) (hclipper : clipper_t) (flatten2 : flatten_t), (forall (ct : Clip.clip_type) (s c : list zpoly), hclipper (Bridge6.ClipBridge.ct_of ct) s c = gclipper ct s c) -> forall (fuel : nat) (self other : list (segment R)) (ints : list (pt R * (segment R * segment R * (R * pt R * R)))) (sl1 sl2 : list (segment R * R)) (pieces1 pieces2 : list (segment R)), Bridge6.ClipBridge.g_isect ROps fmt_2f keq fuel self other = Some (Sample.Returns (ints, sl1, sl2)) -> Split.Path_splitAtPoints ROps fuel self sl1 = Some pieces1 -> Split.Path_splitAtPoints ROps fuel other sl2 = Some pieces2 -> splitAtPoints ROps self sl1 = Ok pieces1 -> splitAtPoints ROps other sl2 = Ok pieces2 -> Forall (Bridge6.ClipBridge.flat_ok ROps flatten2 fuel) pieces1 -> Forall (Bridge6.ClipBridge.flat_ok ROps flatten2 fuel) pieces2 -> forall (ct : Clip.clip_type) (flat : bool) (paths : list (list (segment R) * bool)), Clip.Path_clip ROps fmt_2f keq R_toZ gclipper fuel self other ct flat = Some (Sample.Returns paths) -> exists (f1 f2 : list (seg2 R)) (polys : list (list (Z * Z))), Transfer6clip.g_flat_edges fuel pieces1 = Some f1 /\ Transfer6clip.g_flat_edges fuel pieces2 = Some f2 /\ gclipper ct [map start_scaled_trunc f1] [map start_scaled_trunc f2] = Some polys /\ length paths = length polys.
+Proof. exact @Transfer6clip.gen_clip_calls_clipper. Qed.
+Theorem C12_gen_result_paths_closed_connected_complete :
+  forall (K : Type) (fmt_2f : R -> K) (keq : K -> K -> bool) (gclipper : Clip.clip_type -> list (list (Z * Z)) -> list (list (Z * Z)) -> option (list (list (Z * Z)))) (hclipper : clipper_t) (flatten2 : flatten_t), (forall (ct : Clip.clip_type) (s c : list zpoly), hclipper (Bridge6.ClipBridge.ct_of ct) s c = gclipper ct s c) -> forall (fuel : nat) (self other : list (segment R)) (ints : list (pt R * (segment R * segment R * (R * pt R * R)))) (sl1 sl2 : list (segment R * R)) (pieces1 pieces2 : list (segment R)), Bridge6.ClipBridge.g_isect ROps fmt_2f keq fuel self other = Some (Sample.Returns (ints, sl1, sl2)) -> Split.Path_splitAtPoints ROps fuel self sl1 = Some pieces1 -> Split.Path_splitAtPoints ROps fuel other sl2 = Some pieces2 -> splitAtPoints ROps self sl1 = Ok pieces1 -> splitAtPoints ROps other sl2 = Ok pieces2 -> Forall (Bridge6.ClipBridge.flat_ok ROps flatten2 fuel) pieces1 -> Forall (Bridge6.ClipBridge.flat_ok ROps flatten2 fuel) pieces2 -> forall (ct : Clip.clip_type) (st : store R) (subj clp : zpoly) (l : lut) (polys : list (list (Z * Z))), prepare ROps R_toZ flatten2 self other sl1 sl2 = (st, Ok (subj, clp, l)) -> gclipper ct [subj] [clp] = Some polys -> Forall clipper_poly_ok polys -> Clip.Path_clip ROps fmt_2f keq R_toZ gclipper fuel self other ct true = Some (Sample.Returns (map poly_path polys)) /\ Forall (fun p : zpoly => snd (poly_path p) = true /\ fst (poly_path p) = map SLine (poly_edges p) /\ length (poly_edges p) = length p /\ closed_chain (poly_edges p) /\ (forall (d : zpt) (i : nat), (i < length p)%nat -> nth i (poly_edges p) {| l0 := unscale (zR d); l1 := unscale (zR d) |} = {| l0 := unscale (zR (nth i p d)); l1 := unscale (zR (nth (S i mod length p) p d)) |})) polys.
+Proof. exact @Transfer6clip.gen_result_paths_closed_connected_complete. Qed.
+Theorem C12_gen_clip_flat_paths :
+  forall (K : Type) (fmt_2f : R -> K) (keq : K -> K -> bool) (gclipper : Clip.clip_type -> list (list (Z * Z)) -> list (list (Z * Z)) -> option (list (list (Z * Z)))) (hclipper : clipper_t) (flatten2 : flatten_t), (forall (ct : Clip.clip_type) (s c : list zpoly), hclipper (Bridge6.ClipBridge.ct_of ct) s c = gclipper ct s c) -> forall (fuel : nat) (self other : list (segment R)) (ints : list (pt R * (segment R * segment R * (R * pt R * R)))) (sl1 sl2 : list (segment R * R)) (pieces1 pieces2 : list (segment R)), Bridge6.ClipBridge.g_isect ROps fmt_2f keq fuel self other = Some (Sample.Returns (ints, sl1, sl2)) -> Split.Path_splitAtPoints ROps fuel self sl1 = Some pieces1 -> Split.Path_splitAtPoints ROps fuel other sl2 = Some pieces2 -> splitAtPoints ROps self sl1 = Ok pieces1 -> splitAtPoints ROps other sl2 = Ok pieces2 -> Forall (Bridge6.ClipBridge.flat_ok ROps flatten2 fuel) pieces1 -> Forall (Bridge6.ClipBridge.flat_ok ROps flatten2 fuel) pieces2 -> forall (ct : Clip.clip_type) (paths : list (list (segment R) * bool)), (forall (s c : list (Z * Z)) (polys : list (list (Z * Z))), gclipper ct [s] [c] = Some polys -> Forall clipper_poly_ok polys) -> Clip.Path_clip ROps fmt_2f keq R_toZ gclipper fuel self other ct true = Some (Sample.Returns paths) -> exists (f1 f2 : list (seg2 R)) (polys : list (list (Z * Z))), Transfer6clip.g_flat_edges fuel pieces1 = Some f1 /\ Transfer6clip.g_flat_edges fuel pieces2 = Some f2 /\ gclipper ct [map start_scaled_trunc f1] [map start_scaled_trunc f2] = Some polys /\ paths = map poly_path polys /\ Forall (fun p : zpoly => snd (poly_path p) = true /\ fst (poly_path p) = map SLine (poly_edges p) /\ length (poly_edges p) = length p /\ closed_chain (poly_edges p) /\ (forall (d : zpt) (i : nat), (i < length p)%nat -> nth i (poly_edges p) {| l0 := unscale (zR d); l1 := unscale (zR d) |} = {| l0 := unscale (zR (nth i p d)); l1 := unscale (zR (nth (S i mod length p) p d)) |})) polys.
+Proof. exact @Transfer6clip.gen_clip_flat_paths. Qed.
+Theorem C12_gen_clip_flat_paths_closed_chains :
+  forall (K : Type) (fmt_2f : R -> K) (keq : K -> K -> bool) (gclipper : Clip.clip_type -> list (list (Z * Z)) -> list (list (Z * Z)) -> option (list (list (Z * Z)))) (hclipper : clipper_t) (flatten2 : flatten_t), (forall (ct : Clip.clip_type) (s c : list zpoly), hclipper (Bridge6.ClipBridge.ct_of ct) s c = gclipper ct s c) -> forall (fuel : nat) (self other : list (segment R)) (ints : list (pt R * (segment R * segment R * (R * pt R * R)))) (sl1 sl2 : list (segment R * R)) (pieces1 pieces2 : list (segment R)), Bridge6.ClipBridge.g_isect ROps fmt_2f keq fuel self other = Some (Sample.Returns (ints, sl1, sl2)) -> Split.Path_splitAtPoints ROps fuel self sl1 = Some pieces1 -> Split.Path_splitAtPoints ROps fuel other sl2 = Some pieces2 -> splitAtPoints ROps self sl1 = Ok pieces1 -> splitAtPoints ROps other sl2 = Ok pieces2 -> Forall (Bridge6.ClipBridge.flat_ok ROps flatten2 fuel) pieces1 -> Forall (Bridge6.ClipBridge.flat_ok ROps flatten2 fuel) pieces2 -> forall (ct : Clip.clip_type) (paths : list (list (segment R) * bool)), (forall (s c : list (Z * Z)) (polys : list (list (Z * Z))), gclipper ct [s] [c] = Some polys -> Forall clipper_poly_ok polys) -> Clip.Path_clip ROps fmt_2f keq R_toZ gclipper fuel self other ct true = Some (Sample.Returns paths) -> Forall (fun path : list (segment R) * bool => snd path = true /\ (exists es : list (seg2 R), fst path = map SLine es /\ closed_chain es)) paths.
+Proof. exact @Transfer6clip.gen_clip_flat_paths_closed_chains. Qed.
+Theorem C12_gen_region_semantics :
+  forall (K : Type) (fmt_2f : R -> K) (keq : K -> K -> bool) (gclipper : Clip.clip_type -> list (list (Z * Z)) -> list (list (Z * Z)) -> option (list (list (Z * Z)))) (hclipper : clipper_t) (flatten2 : flatten_t), (forall (ct : Clip.clip_type) (s c : list zpoly), hclipper (Bridge6.ClipBridge.ct_of ct) s c = gclipper ct s c) -> forall (fuel : nat) (self other : list (segment R)) (ints : list (pt R * (segment R * segment R * (R * pt R * R)))) (sl1 sl2 : list (segment R * R)) (pieces1 pieces2 : list (segment R)), Bridge6.ClipBridge.g_isect ROps fmt_2f keq fuel self other = Some (Sample.Returns (ints, sl1, sl2)) -> Split.Path_splitAtPoints ROps fuel self sl1 = Some pieces1 -> Split.Path_splitAtPoints ROps fuel other sl2 = Some pieces2 -> splitAtPoints ROps self sl1 = Ok pieces1 -> splitAtPoints ROps other sl2 = Ok pieces2 -> Forall (Bridge6.ClipBridge.flat_ok ROps flatten2 fuel) pieces1 -> Forall (Bridge6.ClipBridge.flat_ok ROps flatten2 fuel) pieces2 -> forall (delta : R) (ct : Clip.clip_type) (st : store R) (subj clp : zpoly) (l : lut) (polys : list (list (Z * Z))), prepare ROps R_toZ flatten2 self other sl1 sl2 = (st, Ok (subj, clp, l)) -> gclipper ct [subj] [clp] = Some polys -> Forall clipper_poly_ok polys -> clipper_spec delta (Bridge6.ClipBridge.ct_of ct) subj clp polys -> exists paths : list (list (segment R) * bool), Clip.Path_clip ROps fmt_2f keq R_toZ gclipper fuel self other ct true = Some (Sample.Returns paths) /\ (forall q : pt R, far delta q (cyc (map zR subj) ++ cyc (map zR clp)) -> eo_paths paths (Point___truediv__ ROps q (precision ROps)) = bop (Bridge6.ClipBridge.ct_of ct) (eo_poly (map zR subj) q) (eo_poly (map zR clp) q)).
+Proof. exact @Transfer6clip.gen_region_semantics. Qed.
+Theorem C12_gen_region_semantics_all :
+  forall (K : Type) (fmt_2f : R -> K) (keq : K -> K -> bool) (gclipper : Clip.clip_type -> list (list (Z * Z)) -> list (list (Z * Z)) -> option (list (list (Z * Z)))) (hclipper : clipper_t) (flatten2 : flatten_t), (forall (ct : Clip.clip_type) (s c : list zpoly), hclipper (Bridge6.ClipBridge.ct_of ct) s c = gclipper ct s c) -> forall (fuel : nat) (self other : list (segment R)) (ints : list (pt R * (segment R * segment R * (R * pt R * R)))) (sl1 sl2 : list (segment R * R)) (pieces1 pieces2 : list (segment R)), Bridge6.ClipBridge.g_isect ROps fmt_2f keq fuel self other = Some (Sample.Returns (ints, sl1, sl2)) -> Split.Path_splitAtPoints ROps fuel self sl1 = Some pieces1 -> Split.Path_splitAtPoints ROps fuel other sl2 = Some pieces2 -> splitAtPoints ROps self sl1 = Ok pieces1 -> splitAtPoints ROps other sl2 = Ok pieces2 -> Forall (Bridge6.ClipBridge.flat_ok ROps flatten2 fuel) pieces1 -> Forall (Bridge6.ClipBridge.flat_ok ROps flatten2 fuel) pieces2 -> forall (delta : R) (ct : Clip.clip_type) (paths : list (list (segment R) * bool)), (forall (s c : list (Z * Z)) (polys : list (list (Z * Z))), gclipper ct [s] [c] = Some polys -> Forall clipper_poly_ok polys /\ clipper_spec delta (Bridge6.ClipBridge.ct_of ct) s c polys) -> Clip.Path_clip ROps fmt_2f keq R_toZ gclipper fuel self other ct true = Some (Sample.Returns paths) -> exists f1 f2 : list (seg2 R), Transfer6clip.g_flat_edges fuel pieces1 = Some f1 /\ Transfer6clip.g_flat_edges fuel pieces2 = Some f2 /\ (forall q : pt R, far delta q (cyc (map zR (map start_scaled_trunc f1)) ++ cyc (map zR (map start_scaled_trunc f2))) -> eo_paths paths (Point___truediv__ ROps q (precision ROps)) = bop (Bridge6.ClipBridge.ct_of ct) (eo_poly (map zR (map start_scaled_trunc f1)) q) (eo_poly (map zR (map start_scaled_trunc f2)) q)).
+Proof. exact @Transfer6clip.gen_region_semantics_all. Qed.
+Theorem C12_gen_region_semantics_all_g :
+  forall (K : Type) (fmt_2f : R -> K) (keq : K -> K -> bool) (gclipper : Clip.clip_type -> list (list (Z * Z)) -> list (list (Z * Z)) -> option (list (list (Z * Z)))) (flatten2 : flatten_t) (fuel : nat) (self other : list (segment R)) (ints : list (pt R * (segment R * segment R * (R * pt R * R)))) (sl1 sl2 : list (segment R * R)) (pieces1 pieces2 : list (segment R)), Bridge6.ClipBridge.g_isect ROps fmt_2f keq fuel self other = Some (Sample.Returns (ints, sl1, sl2)) -> Split.Path_splitAtPoints ROps fuel self sl1 = Some pieces1 -> Split.Path_splitAtPoints ROps fuel other sl2 = Some pieces2 -> splitAtPoints ROps self sl1 = Ok pieces1 -> splitAtPoints ROps other sl2 = Ok pieces2 -> Forall (Bridge6.ClipBridge.flat_ok ROps flatten2 fuel) pieces1 -> Forall (Bridge6.ClipBridge.flat_ok ROps flatten2 fuel) pieces2 -> forall (delta : R) (ct : Clip.clip_type) (paths : list (list (segment R) * bool)), (forall (s c : list (Z * Z)) (polys : list (list (Z * Z))), gclipper ct [s] [c] = Some polys -> Forall clipper_poly_ok polys /\ clipper_spec delta (Bridge6.ClipBridge.ct_of ct) s c polys) -> Clip.Path_clip ROps fmt_2f keq R_toZ gclipper fuel self other ct true = Some (Sample.Returns paths) -> exists f1 f2 : list (seg2 R), Transfer6clip.g_flat_edges fuel pieces1 = Some f1 /\ Transfer6clip.g_flat_edges fuel pieces2 = Some f2 /\ (forall q : pt R, far delta q (cyc (map zR (map start_scaled_trunc f1)) ++ cyc (map zR (map start_scaled_trunc f2))) -> eo_paths paths (Point___truediv__ ROps q (precision ROps)) = bop (Bridge6.ClipBridge.ct_of ct) (eo_poly (map zR (map start_scaled_trunc f1)) q) (eo_poly (map zR (map start_scaled_trunc f2)) q)).
+Proof. exact @Transfer6clip.gen_region_semantics_all_g. Qed.
 
 Print Assumptions C12_clip_inputs_are_flattened_outlines.
 Print Assumptions C12_selectors_roles.
@@ -117,3 +154,15 @@ Print Assumptions C12_ex_far.
 Print Assumptions C12_clip_tail_gen.
 Print Assumptions C12_clip_gen.
 Print Assumptions C12_clip_gen_R.
+Print Assumptions C12_gen_selectors_ops.
+Print Assumptions C12_ct_of_selectors.
+Print Assumptions C12_gen_clip_returns_iff.
+Print Assumptions C12_gen_clip_not_none.
+Print Assumptions C12_gen_selectors_roles.
+Print Assumptions C12_gen_clip_calls_clipper.
+Print Assumptions C12_gen_result_paths_closed_connected_complete.
+Print Assumptions C12_gen_clip_flat_paths.
+Print Assumptions C12_gen_clip_flat_paths_closed_chains.
+Print Assumptions C12_gen_region_semantics.
+Print Assumptions C12_gen_region_semantics_all.
+Print Assumptions C12_gen_region_semantics_all_g.
